@@ -1,6 +1,7 @@
 import PymtlVerif.Driver.Sexp
 import PymtlVerif.Model.Rtl
 import PymtlVerif.Model.Kahn
+import PymtlVerif.Model.Methods
 /-!
 Handler `rtl`: executable face of `Model/Rtl.lean` (C01, C02, C07, C11).
 
@@ -17,6 +18,8 @@ Requests
                                            → `ok ((vals after eval_comb) (vals after tick)) ...` | `cyclic <cycle>`
   rtl entries <design> (entries...)        → `entries <perm> <wfBlocks> <entriesTopoB> <watchesOKB>`
   rtl kahn    (V...) ((a b)...) (picks...) → `order (ids...)`
+  rtl methods (calls (b m)...) (mcons (x y eq)...) (blocks ids...)
+                                           → `edges ((a b)...)` (sorted, duplicates removed; Model/Methods.lean `process`, C02m)
 design  := (design (widths w...) (comb blk...) (ff blk...))
 blk     := (blk id asg...)         asg := (asg sig lo w expr)
 expr    := (c w v) | (r sig lo w) | (n w e) | (b op w e1 e2) | (m c a b) | (cat a wb b)
@@ -205,6 +208,20 @@ def handle (args : List Sexp) : Option String :=
         | _, [] => done.reverse
         | _, p :: ps => if r.contains p then go f (p :: done) ps else done.reverse
     some s!"order {natsToString (go V.length [] picks)} ref {natsToString (Kahn.kahn (fun _ => 0) V E V.length [])}"
+  -- ---------------------------------------------------------------------------------------------------------
+  -- C02m: block-level pairs added by GenDAGPass._process_methods (Model/Methods.lean)
+  | [.atom "methods", .list (.atom "calls" :: cs), .list (.atom "mcons" :: ms), .list (.atom "blocks" :: bs)] => do
+    let calls ← cs.mapM (fun p => match p with
+      | .list [b, m] => do some (← b.nat?, ← m.nat?)
+      | _ => none)
+    let mcons ← ms.mapM (fun p => match p with
+      | .list [x, y, e] => do some (← x.nat?, ← y.nat?, ← e.bool?)
+      | _ => none)
+    let blocks ← bs.mapM Sexp.nat?
+    let es := (PV.Methods.Input.process ⟨calls, mcons, blocks⟩).eraseDups
+    let sorted := es.mergeSort (fun a b => a.1 < b.1 || (a.1 == b.1 && a.2 ≤ b.2))
+    some s!"edges {showPairs sorted}"
+  -- ---------------------------------------------------------------------------------------------------------
   | _ => none
 
 end PV.Driver.Rtl
